@@ -316,6 +316,13 @@ func famC19Base() []appFamily {
 			h.MtSend(0, 1, cls, id, h.addr(1, 1), B, "", 11)            // more than held
 			h.MtSend(0, 1, cls, id, h.addr(1, 1), "nowhere99", "", 5)   // unknown destination: units must not stay locked
 			h.MtSend(0, 2, cls, id, h.addr(1, 1), B, "", 1)             // holds nothing
+			// the MT counterparts of the failing NFT sends above (added after the statement-coverage audit:
+			// no generated input reached these refusal branches of SendMtTransfer)
+			h.MtSend(0, 1, "nosuchclass", id, h.addr(1, 1), B, "", 1)   // unknown class
+			h.MtSend(0, 1, cls, "nosuchid", h.addr(1, 1), B, "", 1)     // unknown multi-token
+			h.MtSend(0, 1, cls, id, h.addr(1, 1), A, "", 1)             // destination = this chain
+			h.MtSend(0, 1, cls, id, h.addr(1, 1), B, "norelay99", 1)    // unknown relay
+			h.MtSend(0, 1, "tibc-ABCD", id, h.addr(1, 1), B, "", 1)     // voucher class without trace
 			h.MtMove(0, 2, cls, id, 1, 1)
 			h.MtBurn(0, 1, cls, id, 11)
 			f := h.nftHop(o, 0, 1, "kitty", "tom", 1, "bad", "") // error-acked receive (oracle compares token state)
